@@ -6,7 +6,7 @@ import schedupper
 
 THEOREMS = {"C04.v": json.load(open(os.path.join(os.path.dirname(__file__), "_theorems.json")))["C04"],
             # concurrent half: the whole allocator under every interleaving (machine M2)
-            "Conc.v": ['Conc_quiescent_validate', 'Conc_quiescent_stats', 'Conc_quiescent_stats_with_changes', 'Conc_upper_safe', 'Conc_from_new', 'Conc_online_exclusion_necessary']}
+            "Conc.v": ['Conc_quiescent_validate', 'Conc_quiescent_stats', 'Conc_quiescent_stats_with_changes', 'Conc_upper_safe', 'Conc_from_new', 'Conc_online_exclusion_necessary', 'Conc_online_race_later_free_panics']}
 
 
 def run(ctx):
